@@ -50,6 +50,8 @@ def plan(tier, seed):
     if tier == "thorough":
         for first in range(len(alpha)):
             shards.append({"kind": "tex", "alpha": alpha, "nmax": 3, "first": first})
+        for r in range(56):  # every ordered triple of the combining diacritical marks on two bases
+            shards.append({"kind": "marks3", "mod": 56, "rem": r})
     return shards
 
 
@@ -115,6 +117,26 @@ def run_shard(shard):
                 if bad:
                     acc.violation({"text": text, "preamble": preamble, "via": "fontdoc"}, bad[0], bad[1], order=(2, len(text), text))
         acc.sample({"text": text, "preamble": preamble, "via": "fontdoc"})
+        return acc
+    if shard["kind"] == "marks3":
+        marks = [chr(c) for c in range(0x300, 0x370)]
+        text = None
+        for i, m1 in enumerate(marks):
+            if i % shard["mod"] != shard["rem"]:
+                continue
+            for m2 in marks:
+                for m3 in marks:
+                    acc.states += 1
+                    for base in ("a", "\u03b1"):
+                        text = base + m1 + m2 + m3 + "n"
+                        acc.evals += 1
+                        acc.trans += 1
+                        acc.counters["mark_triple_strings"] += 1
+                        acc.nontriv += 1
+                        bad = uni.check_text(uni2tex, text)
+                        if bad:
+                            acc.violation({"text": text}, bad[0], bad[1], order=(1, len(text), text))
+        acc.sample({"text": text})
         return acc
     if shard["kind"] == "marks":
         marks = [chr(c) for c in range(0x300, 0x370)]
